@@ -165,11 +165,9 @@ void deactivate_current_locals () {
 
 void reactivate_current_locals () {
   int i;
+  /* deactivate_current_locals() left sem_value alone: the entry kept its count */
   for (i = 0; i < current_number_of_locals; i++)
-    {
-      locals_ptr[i]->dn.local_num = runtime_locals_ptr[i];
-      locals_ptr[i]->sem_value++;
-    }
+    locals_ptr[i]->dn.local_num = runtime_locals_ptr[i];
 }
 
 void clean_up_locals () {
@@ -188,7 +186,9 @@ void clean_up_locals () {
 }
 
 void pop_n_locals (int num) {
-  while (num--)
+  /* num counts the declarations of the block, also the ones add_local_name() refused
+   * ("Too many local variables"); the entries below locals_ptr[0] are not ours */
+  while (num-- > 0 && current_number_of_locals > 0)
     {
       locals_ptr[--current_number_of_locals]->sem_value--;
       locals_ptr[current_number_of_locals]->dn.local_num = -1;
@@ -209,8 +209,10 @@ int add_local_name (char *str, int type) {
       ihe = find_or_add_ident (str, FOA_NEEDS_MALLOC);
       type_of_locals_ptr[max_num_locals] = (lpc_type_t)type;
       locals_ptr[current_number_of_locals++] = ihe;
-      if (ihe->dn.local_num == -1)
-        ihe->sem_value++;
+      /* one count for every entry of locals[], also when the name is a local already (a
+       * redeclaration, the "" of unnamed arguments): pop_n_locals(), free_all_local_names()
+       * and clean_up_locals() take one count for every entry back */
+      ihe->sem_value++;
       return (ihe->dn.local_num = (short)max_num_locals++);
     }
 }
